@@ -433,9 +433,14 @@ def run_part_a(ctx):
     tier = ctx.tier
     acts = alphabet(tier)
     ctx.space('gv.actions', len(acts))
-    ctx.rule(f'C14-A: BFS to a fixed point over histories of gv(**kw)/clean(); alphabet = every commensurate subset of '
-             f'sps/R/fs/wavelength/N/custom values ({len(acts)} actions); every transition executed on the real singleton '
-             f'and on the reference model; invariant checked in every successor state')
+    kinds = {k: sum(a[0] == k for a in acts) for k in ('call', 'pos', 'failclean')}
+    ctx.rule(f'C14-A: BFS to a fixed point over histories of gv(...)/clean(); alphabet ({len(acts)} actions) = clean() + every commensurate '
+             f'subset of the core sps/R/fs/wavelength/N/custom values + hardening extension (each new member crossed with a few partner '
+             f'settings: scalar kinds float/numpy/0-d/Python-int, numpy slot counts, explicit default wavelength, rates with inexact '
+             f'quotients on both sides of the integer, customs from separate calls): {kinds["call"]} keyword calls, {kinds["pos"]} positional '
+             f'spellings, {kinds["failclean"]} failing/odd calls each followed by clean(); every transition executed on the real singleton '
+             f'(state reached by replaying its shortest history, rewound before each action) and on the reference model; invariant '
+             f'checked in every successor state; the search stops after the first depth with violations')
     ctx.assume('C14-A: two states of the singleton are identified when all attributes are equal BY VALUE (R = 10**9, 1e9, np.float64(1e9) '
                'and a 0-d array are one state); clean() is compared with a new instance including the types')
     init = initial_canon()
@@ -464,6 +469,11 @@ def run_part_a(ctx):
         print(f'[C14] gv BFS depth {depth}: states={len(seen)} frontier={len(frontier)} transitions={transitions}', flush=True)
         if depth > 12:
             ctx.cap('gv BFS depth cap 12 hit before the frontier emptied')
+            break
+        if frontier and any(v['part'].startswith('gvbfs') for v in ctx.viol):
+            # a singleton that breaks the invariant usually has an unbounded / exploding state space (stale arrays of every
+            # earlier grid ...): the shortest counterexamples are those of this depth, the search stops here
+            ctx.cap(f'gv BFS stopped after depth {depth}: violations found, the state space of a broken singleton is not explored further')
             break
     for ck in seen:
         if "'N', 'None'" not in ck or len(ck.split("), (")) > 10:
